@@ -135,6 +135,77 @@ func (g *gen) msg(from string, fail bool) c09lib.M {
 	}
 }
 
+// repeatTx: k = 2..4 copies of one fee-bearing message type mixed with 0..2 messages of other types,
+// in random order, and a native fee at one of: each prefix sum of the per-message requirements
+// max(execution, failure), the sum with every type counted once, the largest single requirement,
+// the total -- each exact, -1 and +1.
+func (g *gen) repeatTx(c *c09lib.Cfg, from string) ([]c09lib.M, []sdk.Coin) {
+	r := g.r
+	one := func(ty string) c09lib.M {
+		to := g.people[r.Intn(4)]
+		small := sdk.NewCoins(sdk.NewInt64Coin("ukex", int64(1+r.Intn(9))))
+		switch ty {
+		case "send", "custody_send":
+			return c09lib.M{Kind: ty, From: from, To: to, Amt: small}
+		case "multisend":
+			return c09lib.M{Kind: "multisend", From: from, Amt: small, Outs: []c09lib.Out{{To: to, Amt: small}}}
+		case "register_identity_records":
+			g.nmark++
+			return c09lib.M{Kind: "other", From: from, Ty: ty, Mark: fmt.Sprintf("k%d", g.nmark)}
+		default:
+			return c09lib.M{Kind: "other", From: from, Ty: ty, Fails: true}
+		}
+	}
+	types := []string{"send", "custody_send", "multisend", "register_identity_records", "set_network_properties", "upsert_token_info"}
+	main := types[r.Intn(len(types))]
+	if len(c.Exec) > 0 && r.Chance(85) {
+		main = c.Exec[r.Intn(len(c.Exec))].Type
+	}
+	var ms []c09lib.M
+	for k := 0; k < 2+r.Intn(3); k++ {
+		ms = append(ms, one(main))
+	}
+	for k := 0; k < r.Intn(3); k++ {
+		ms = append(ms, one(types[r.Intn(len(types))]))
+	}
+	for i := len(ms) - 1; i > 0; i-- { // shuffle
+		j := r.Intn(i + 1)
+		ms[i], ms[j] = ms[j], ms[i]
+	}
+	req := func(ty string) uint64 {
+		for _, f := range c.Exec {
+			if f.Type == ty {
+				if f.Execution > f.Failure {
+					return f.Execution
+				}
+				return f.Failure
+			}
+		}
+		return 0
+	}
+	var cands []uint64
+	sum, dedup, mx := uint64(0), uint64(0), uint64(0)
+	seen := map[string]bool{}
+	for _, m := range ms {
+		q := req(m.Type())
+		sum += q
+		cands = append(cands, sum)
+		if !seen[m.Type()] {
+			seen[m.Type()] = true
+			dedup += q
+		}
+		if q > mx {
+			mx = q
+		}
+	}
+	cands = append(cands, dedup, dedup, dedup, mx, sum, sum)
+	v := cands[r.Intn(len(cands))] + uint64(r.Intn(3)) - 1
+	if v < c.MinFee || v > 1<<62 {
+		v = c.MinFee
+	}
+	return ms, []sdk.Coin{sdk.NewInt64Coin("ukex", int64(v))}
+}
+
 // fee coins aimed at the boundaries of [min, max] and of the execution-fee cover
 func (g *gen) fee(c *c09lib.Cfg, ms []c09lib.M) []sdk.Coin {
 	r := g.r
@@ -317,6 +388,28 @@ func main() {
 				}
 			}
 		}
+		// every fourth block: repeated message types and fees swept around every partial sum of the
+		// per-message execution-fee requirements
+		repeatBlock := b >= 2 && b%4 == 2
+		if repeatBlock {
+			c.Tokens[0] = c09lib.Tok{Denom: "ukex", Rate: sdk.NewDec(1), FeeEnabled: true}
+			c.Black, c.EnBlack, c.EnWhite, c.Foreign, c.Custody = nil, false, false, true, nil
+			c.MinFee, c.MaxFee = uint64(1+r.Intn(20)), 1000000
+			c.Exec = nil
+			for k, t := range []string{"send", "custody_send", "multisend", "register_identity_records", "set_network_properties", "upsert_token_info"} {
+				if r.Chance(80) {
+					lo, hi := uint64(10+r.Intn(150)), uint64(160+r.Intn(250))
+					switch (k + b/4) % 3 {
+					case 0:
+						c.Exec = append(c.Exec, c09lib.ExecFee{Type: t, Execution: hi, Failure: lo}) // execution > failure
+					case 1:
+						c.Exec = append(c.Exec, c09lib.ExecFee{Type: t, Execution: lo, Failure: hi}) // failure > execution
+					default:
+						c.Exec = append(c.Exec, c09lib.ExecFee{Type: t, Execution: hi, Failure: hi})
+					}
+				}
+			}
+		}
 		if b < 2 {
 			c.Tokens[0] = c09lib.Tok{Denom: "ukex", Rate: sdk.NewDec(1), FeeEnabled: true}
 		}
@@ -368,8 +461,16 @@ func main() {
 				one := sdk.NewCoins(sdk.NewInt64Coin("ukex", 1))
 				ms = []c09lib.M{{Kind: "send", From: from, To: "a1", Amt: one}, {Kind: "multisend", From: from, Amt: one, Outs: []c09lib.Out{{To: "a2", Amt: one}}}}
 			}
+			var feeOverride []sdk.Coin
+			if repeatBlock {
+				ms, feeOverride = g.repeatTx(c, from)
+				failAt = -1
+			}
 			t := c09lib.TxSpec{Msgs: ms, SigOK: !r.Chance(3)}
-			if b >= 2 && r.Chance(10) { // an Ethereum native send from an Ethereum-style account
+			if repeatBlock {
+				t.SigOK = true
+			}
+			if b >= 2 && !repeatBlock && r.Chance(10) { // an Ethereum native send from an Ethereum-style account
 				em := c09lib.M{Kind: "eth", From: []string{"e0", "e1"}[r.Intn(2)], To: g.people[r.Intn(len(g.people))], EthAmt: int64(r.Intn(600))}
 				if r.Chance(30) {
 					em.EthRem = int64(r.Intn(1000000))
@@ -384,10 +485,10 @@ func main() {
 				}
 				t.Msgs = ms
 			}
-			if b >= 2 && r.Chance(8) {
+			if b >= 2 && !repeatBlock && r.Chance(8) {
 				t.Payer = signers[r.Intn(4)]
 			}
-			if b >= 2 {
+			if b >= 2 && !repeatBlock {
 				t.NoGas, t.Grant = r.Chance(2), r.Chance(2)
 			}
 			sg := c09lib.SignersOf(t)
@@ -395,10 +496,14 @@ func main() {
 			for k, s := range sg {
 				seqs[k] = seqOf(ctx, s)
 			}
-			if r.Chance(4) {
+			if r.Chance(4) && !repeatBlock {
 				seqs[r.Intn(len(seqs))] += uint64(1 + r.Intn(2))
 			}
 			t.Fee, t.Seqs = g.fee(c, ms), seqs
+			if repeatBlock {
+				t.Fee = feeOverride
+				dist.Inc("tx:repeated-types")
+			}
 			if b < 2 && i == 0 {
 				t.Fee, t.SigOK = []sdk.Coin{sdk.NewInt64Coin("ukex", 100)}, true
 				for k, s := range sg {
